@@ -13,6 +13,7 @@ mod c10;
 mod c11;
 mod c12;
 mod c13;
+mod c15;
 mod c16;
 mod c17;
 mod c19;
@@ -58,7 +59,22 @@ fn main() {
     let id = id.as_str();
     let tier = tier.as_str();
     std::env::set_var("VERIF_TIER", tier);
-    let code = match id {
+    let code = match std::panic::catch_unwind(|| run(id, tier)) {
+        Ok(c) => c,
+        Err(_) => {
+            println!(
+                "MACHINERY-ERROR property={} harness panicked: {}",
+                id,
+                fw::last_harness_panic().unwrap_or_else(|| "(unknown)".into())
+            );
+            2
+        }
+    };
+    std::process::exit(code);
+}
+
+fn run(id: &str, tier: &str) -> i32 {
+    match id {
         "C01" => c01::check(tier),
         "C02" => c02::check(tier),
         "C03" => c03::check(tier),
@@ -72,6 +88,7 @@ fn main() {
         "C11" => c11::check(tier),
         "C12" => c12::check(tier),
         "C13" => c13::check(tier),
+        "C15" => c15::check(tier),
         "C16" => c16::check(tier),
         "C17" => c17::check(tier),
         "C19" => c19::check(tier),
@@ -80,6 +97,5 @@ fn main() {
             eprintln!("unknown check {id}");
             2
         }
-    };
-    std::process::exit(code);
+    }
 }
